@@ -776,7 +776,48 @@ More3 == <<
      CloseQuoteTkn |-> TkG("\"", "L")])
 >>
 
-Variants == Binaries \o Assigns \o Unaries \o Atoms \o Others \o Statements \o More \o Heredocs \o Decls \o More2 \o More3
+More4 == <<
+  V("ScalarEncapsed/dollarcurlydim", "ScalarEncapsed", {"expr"}, "both", L.atom, FALSE,
+    [OpenQuoteTkn |-> TkG("\"", "R"),
+     Parts |-> Sq(<<StrText, EncVar([DollarOpenCurlyBracketTkn |-> TkG("${", "LR"), Name |-> VarName, OpenSquareBracketTkn |-> TkG("[", "L"), Dim |-> Ch("parenfree", 0),
+                                     CloseSquareBracketTkn |-> Tk("]"), CloseCurlyBracketTkn |-> TkG("}", "R")]), StrText>>),
+     CloseQuoteTkn |-> TkG("\"", "L")]),
+  V("StmtTraitUseAlias/reserved", "StmtTraitUseAlias", {"adaptation"}, "7", 0, TRUE,
+    [Method |-> Ident("IDENT"), AsTkn |-> Tk("as"), Alias |-> IdentRes, SemiColonTkn |-> Tk(";")]),
+  V("StmtGroupUseList/typedtrailing", "StmtGroupUseList", {"toponly", "nsitem"}, "7", 0, TRUE,
+    [UseTkn |-> Tk("use"), Type |-> Mod("function"), Prefix |-> Ch("plainname", 0), NsSeparatorTkn |-> TkG("\\", "LR"),
+     OpenCurlyBracketTkn |-> TkG("{", "L"), Uses |-> Ls("useclause", 1, 2, "SeparatorTkns", ",", "yes"), CloseCurlyBracketTkn |-> Tk("}"), SemiColonTkn |-> Tk(";")]),
+  V("ExprArrayDimFetch/classrefcurly", "ExprArrayDimFetch", {"classref"}, "both", L.atom, FALSE,
+    [Var |-> SimpleVar, OpenBracketTkn |-> Tk("{"), Dim |-> Ch("expr", 0), CloseBracketTkn |-> Tk("}")]),
+  V("ExprStaticPropertyFetch/varvar", "ExprStaticPropertyFetch", {"expr", "var"}, "both", L.atom, TRUE,
+    [Class |-> Ch("name", 0), DoubleColonTkn |-> Tk("::"), Prop |-> VarOf(SimpleVar)]),
+  V("ExprStaticCall/varvar", "ExprStaticCall", {"expr", "deref"}, "both", L.atom, FALSE,
+    [Class |-> SimpleVar, DoubleColonTkn |-> Tk("::"), Call |-> SimpleVar, OpenParenthesisTkn |-> Tk("("), Args |-> Args, CloseParenthesisTkn |-> Tk(")")]),
+  V("ExprBrackets/yield", "ExprBrackets", {"expr"}, "both", L.atom, FALSE,
+    [OpenParenthesisTkn |-> Tk("("), Expr |-> Nd("ExprYield", [YieldTkn |-> Tk("yield"), Val |-> Ch("expr", L.ternary)]), CloseParenthesisTkn |-> Tk(")")]),
+  V("ExprBrackets/yieldkey", "ExprBrackets", {"expr"}, "both", L.atom, FALSE,
+    [OpenParenthesisTkn |-> Tk("("), Expr |-> Nd("ExprYield", [YieldTkn |-> Tk("yield"), Key |-> Ch("expr", L.ternary), DoubleArrowTkn |-> Tk("=>"), Val |-> Ch("expr", L.ternary)]),
+     CloseParenthesisTkn |-> Tk(")")]),
+  V("ExprBrackets/yieldbare", "ExprBrackets", {"expr"}, "both", L.atom, TRUE,
+    [OpenParenthesisTkn |-> Tk("("), Expr |-> Nd("ExprYield", [YieldTkn |-> Tk("yield")]), CloseParenthesisTkn |-> Tk(")")]),
+  V("ExprAssignReference/new", "ExprAssignReference", {"expr"}, "5", L.assign, FALSE,
+    [Var |-> Ch("var", 0), EqualTkn |-> Tk("="), AmpersandTkn |-> Tk("&"), Expr |-> Nd("ExprNew", [NewTkn |-> Tk("new"), Class |-> Ch("name", 0)])]),
+  V("ExprPropertyFetch/newparen2", "ExprPropertyFetch", {"expr"}, "both", L.atom, FALSE,
+    [Var |-> Nd("ExprPropertyFetch",
+        [Var |-> Nd("ExprBrackets", [OpenParenthesisTkn |-> Tk("("), Expr |-> Nd("ExprNew", [NewTkn |-> Tk("new"), Class |-> Ch("name", 0)]), CloseParenthesisTkn |-> Tk(")")]),
+         ObjectOperatorTkn |-> Tk("->"), Prop |-> Ident("IDENT")]),
+     ObjectOperatorTkn |-> Tk("->"), Prop |-> Ident("IDENT")]),
+  V("ExprArrayDimFetch/newparen", "ExprArrayDimFetch", {"expr"}, "both", L.atom, FALSE,
+    [Var |-> Nd("ExprBrackets", [OpenParenthesisTkn |-> Tk("("), Expr |-> Nd("ExprNew", [NewTkn |-> Tk("new"), Class |-> Ch("name", 0)]), CloseParenthesisTkn |-> Tk(")")]),
+     OpenBracketTkn |-> Tk("["), Dim |-> Ch("expr", 0), CloseBracketTkn |-> Tk("]")]),
+  V("ExprMethodCall/newparendim", "ExprMethodCall", {"expr"}, "both", L.atom, FALSE,
+    [Var |-> Nd("ExprArrayDimFetch",
+        [Var |-> Nd("ExprBrackets", [OpenParenthesisTkn |-> Tk("("), Expr |-> Nd("ExprNew", [NewTkn |-> Tk("new"), Class |-> Ch("name", 0)]), CloseParenthesisTkn |-> Tk(")")]),
+         OpenBracketTkn |-> Tk("["), Dim |-> Ch("expr", 0), CloseBracketTkn |-> Tk("]")]),
+     ObjectOperatorTkn |-> Tk("->"), Method |-> Ident("IDENT"), OpenParenthesisTkn |-> Tk("("), Args |-> Args, CloseParenthesisTkn |-> Tk(")")])
+>>
+
+Variants == Binaries \o Assigns \o Unaries \o Atoms \o Others \o Statements \o More \o Heredocs \o Decls \o More2 \o More3 \o More4
 
 \* the root: a file is a statement list (the harness prefixes the open tag as free-floating text of the first token)
 RootFill == [Stmts |-> Ls("top", 0, 3, "", "", "no")]
